@@ -2,7 +2,7 @@
    theorems talk about) on implementation states. *)
 open Sm
 open Codec
-let handles (cmd : string) = List.mem cmd ["M"; "EV"; "LB"; "RW"]
+let handles (cmd : string) = List.mem cmd ["M"; "EV"; "LB"; "RW"; "OB"; "OA"]
 let run (cmd : string) (io : inst option) (args : sx list) : unit =
   let i () = match io with Some i -> i | None -> raise (Parse "no instance") in
   match cmd, args with
@@ -23,5 +23,28 @@ let run (cmd : string) (io : inst option) (args : sx list) : unit =
                 rc_nops = p_z nops; rc_njobs = p_nat njobs } in
       (match reward c (p_nat streak) (p_z time) (p_bool term) (p_bool trunc) (p_bool noop) with
        | Ok (qv, st) -> ps "(ok "; pz qv.qnum; ps " "; pi (int_of_pos qv.qden); ps " "; pnat st; ps ")"
+       | Err e -> ps "(raise "; perr e; ps ")")
+  | "OB", [tmax; x; offers; dn] ->
+      let st = p_state x in
+      let pq (qv : q) = ps "("; pz qv.qnum; ps " "; pi (int_of_pos qv.qden); ps ")" in
+      let pzl l = plist pz l in
+      (match make_simple (i ()) (p_z tmax) st with
+       | Ok o ->
+           ps "(simple "; pzl o.ob_job_running; ps " "; plist pzl o.ob_executed; ps " "; pzl o.ob_job_progression; ps " ";
+           pzl o.ob_machine_running; ps " "; pzl o.ob_machine_progression; ps " "; pzl o.ob_available; ps " ";
+           pq o.ob_time; ps " "; pi (if simple_int_fields_in_space (i ()) o then 1 else 0); ps " ";
+           pi (if time_in_space o then 1 else 0); ps ")"
+       | Err e -> ps "(raise "; perr e; ps ")");
+      ps " ";
+      (match current_transition (i ()) st (p_list p_tr offers) (p_bool dn) with
+       | Ok ((a, bq), c) -> ps "(ct "; pq a; ps " "; pq bq; ps " "; pq c; ps " ";
+           pi (if triple_in_space ((a, bq), c) then 1 else 0); ps ")"
+       | Err e -> ps "(raise "; perr e; ps ")")
+  | "OA", [L labels; x] ->
+      let tab = List.map (function L [bd; n] -> (p_bid bd, p_z n) | y -> bad "label" y) labels in
+      let label bd = try List.assoc bd tab with Not_found -> Z0 in
+      let pq (qv : q) = ps "("; pz qv.qnum; ps " "; pi (int_of_pos qv.qden); ps ")" in
+      (match make_oparray (i ()) label (p_state x) with
+       | Ok (ops, locs) -> ps "(oa "; plist pq ops; ps " "; plist pq locs; ps ")"
        | Err e -> ps "(raise "; perr e; ps ")")
   | _ -> ps "(error monitor-args)"
